@@ -178,5 +178,39 @@ int main(int argc, char **argv)
         Heap h(lib.size());
         memcpy(h.p, lib.data(), lib.size());
         inspect(e, h.p, lib.size(), 0);
+        // the same bundle 1..3 bytes behind an aligned address
+        {
+            size_t shift = 1 + r.below(3);
+            Heap hu(lib.size() + shift);
+            memcpy(hu.p + shift, lib.data(), lib.size());
+            std::string keep = g_desc;
+            g_desc += fmt(" [bundle placed at an aligned address + %zu]", shift);
+            count("inspect.unaligned_placement");
+            inspect(e, hu.p + shift, lib.size(), 0);
+            g_desc = keep;
+        }
+        // accessors are functions of the bytes alone: one buffer reused for bundle after bundle, elements fetched in any order
+        if(!e.kids.empty() && lib.size() + 8 < (1u << 18)) {
+            static char *arena = (char *)calloc(1, 1 << 18);
+            memcpy(arena, lib.data(), lib.size());
+            memset(arena + lib.size(), 0, 8);
+            std::vector<size_t> offs; size_t off = 16;
+            std::vector<ref::bytes> kb;
+            for(auto &k : e.kids) { kb.push_back(k.encode()); offs.push_back(off + 4); off += 4 + kb.back().size(); }
+            size_t n = e.kids.size(), start = (size_t)r.below(n);
+            int how = (int)r.below(3);
+            count("inspect.reused_buffer");
+            for(size_t k = 0; k < n; ++k) {
+                size_t i = how == 0 ? n - 1 - k : how == 1 ? (start + k) % n : (size_t)r.below(n);
+                const char *f = rtosc_bundle_fetch(arena, (unsigned)i);
+                size_t sz = rtosc_bundle_size(arena, (unsigned)i);
+                count("inspect.fetch_reused_buffer");
+                if(f != arena + offs[i] || sz != kb[i].size() || memcmp(f, kb[i].data(), kb[i].size())) {
+                    fail("bundle_fetch_history_dependent", {}, g_desc + " [same buffer as the previous bundle, elements fetched in another order]",
+                         fmt("elem %zu at offset %ld size %zu", i, (long)(f - arena), sz), fmt("offset %zu size %zu, the element's bytes", offs[i], kb[i].size()));
+                    break;
+                }
+            }
+        }
     });
 }
